@@ -152,13 +152,21 @@ def harness_cfg(consts, offset):
             "offset": offset, "nvals": 3}
 
 
-def long_run(n, retain, sample_every, crash_at=None):
-    """A chain of n blocks built without audits, then one prune that crosses the code's
-    1000-block flush interval, every (or every sampled) crash prefix audited."""
+LONG_CFG = {"initial": 1, "boot": 0, "twopart": [3, 1001], "valchg": [2, 1001], "parchg": [3, 1002], "offset": 0, "nvals": 2}
+
+
+def long_build(n):
     ops = [{"op": "Genesis", "crash": -1, "audit": "silent"}]
     for h in range(1, n + 1):
         ops.append({"op": "SaveBlock", "a": h, "crash": -1, "audit": "silent"})
         ops.append({"op": "ApplyBlock", "a": h, "crash": -1, "audit": "silent"})
+    return ops
+
+
+def long_run(n, retain, sample_every, crash_at=None):
+    """A chain of n real blocks built without trace lines, then one prune that crosses the code's
+    1000-block flush interval, every (or every sampled) crash prefix audited."""
+    ops = long_build(n)
     ops.append({"op": "Load"})      # the trace gets the abstraction of the whole databases instead
     mode = "sample" if sample_every > 1 else "all"
     ops.append({"op": "PruneBlocks", "a": retain, "crash": -1 if crash_at is None else crash_at, "audit": mode})
@@ -167,9 +175,24 @@ def long_run(n, retain, sample_every, crash_at=None):
     else:
         # after the interrupted prune: reopen, go on pruning from the persisted base
         ops.append({"op": "PruneBlocks", "a": retain, "crash": -1, "audit": mode})
-    return {"cfg": {"initial": 1, "boot": 0, "maxheight": n, "twopart": [3, 1001], "valchg": [2, 1001],
-                    "parchg": [3, 1002], "offset": 0, "nvals": 2},
-            "ops": ops, "incremental": True, "sample_every": sample_every, "label": "long"}
+    return {"cfg": dict(LONG_CFG, maxheight=n), "ops": ops, "incremental": True, "sample_every": sample_every,
+            "label": "long"}
+
+
+def long_runs_sliced(n, retain, per=1800):
+    """the same with EVERY prefix audited, cut into runs that audit a slice of the prefixes each"""
+    runs = []
+    nb = (retain - 1) * 5 + 2 + 3 + (retain - 1) // 1000 * 1       # upper bound of the PruneBlocks journal length
+    for lo in range(1, nb + 1, per):
+        ops = long_build(n) + [{"op": "Load"},
+                               {"op": "PruneBlocks", "a": retain, "crash": -1, "audit": "all", "audit_from": lo, "audit_to": lo + per - 1}]
+        runs.append({"cfg": dict(LONG_CFG, maxheight=n), "ops": ops, "incremental": True, "sample_every": 1, "label": "long-blocks"})
+    ns = (retain - 1) * 3
+    for lo in range(1, ns + 1, per):
+        ops = long_build(n) + [{"op": "PruneBlocks", "a": retain, "crash": -1, "audit": "silent"}, {"op": "Load"},
+                               {"op": "PruneStates", "a": 1, "b": retain, "crash": -1, "audit": "all", "audit_from": lo, "audit_to": lo + per - 1}]
+        runs.append({"cfg": dict(LONG_CFG, maxheight=n), "ops": ops, "incremental": True, "sample_every": 1, "label": "long-states"})
+    return runs
 
 
 def run_tlc_models(ctx, quick):
@@ -213,7 +236,7 @@ def check_weak(ctx):
 
 def build_inputs(ctx, quick):
     runs, cruns = [], []
-    cons_models = ("main",) if quick else ("main", "ckpt", "boot")
+    cons_models = ("main",) if quick else ("main", "boot")
     gstats = {}
     for name, (base, over, offset) in graph_models(quick).items():
         cfg = core.cfg_variant(ctx, base, "C18_g_%s.cfg" % name, over)
@@ -352,8 +375,8 @@ def run(ctx):
         longs = [long_run(1005, 1003, 40)]
         nrandom, ncrandom, nsrandom = 30, 12, 30
     else:
-        longs = [long_run(2104, 2102, 1), long_run(1010, 1005, 25, crash_at=2400)]
-        nrandom, ncrandom, nsrandom = 400, 150, 300
+        longs = long_runs_sliced(2104, 2102) + [long_run(1010, 1005, 25, crash_at=2400)]
+        nrandom, ncrandom, nsrandom = 300, 100, 300
     runs += longs
 
     # ---- 3. replay on the real stores -------------------------------------------------------
